@@ -296,7 +296,7 @@ def run_case(desc):
         if ok and desc["kind"] == "gen" and desc["i"] % 3 == 0:
             check_repeat_after_fault(v, case, env, exp_calls, scratch, desc["i"])
     nt = mapgen.nontrivial(case)
-    return v.result(key=mapgen.signature(case) if nt else None,
+    return v.result(evaluations=v.counters.get("runs", 0), key=mapgen.signature(case) if nt else None,
                     sample={"case": mapgen.describe(case), "storages": desc["storages"],
                             "expected_first_output": probes.render(env[case["funcs"][0]["outs"][0]])[:300]}
                     if desc["i"] % 400 == 3 else None)
